@@ -483,9 +483,13 @@ def second_hand(root, rs):
     x = np.full((3, width), np.nan, dtype=np.float32)
     try:
         with np.errstate(all="ignore"):
-            log_likelihood(root, x); likelihood(root, x)
-            mpe(root, x); sample(root, x)
-            log_likelihood(root, x, n_jobs=2); mpe(root, x, n_jobs=2)
+            for q in (lambda: log_likelihood(root, x), lambda: likelihood(root, x), lambda: mpe(root, x), lambda: sample(root, x),
+                      lambda: log_likelihood(root, x, n_jobs=2), lambda: mpe(root, x, n_jobs=2)):
+                try:
+                    q()
+                except Exception:
+                    pass          # a query that raises here is not this helper's business: the stages that follow exercise the
+                                  # same entry points on the restored object and report the failing input themselves
     finally:
         for arr, old in saved:
             arr[...] = old
